@@ -1564,7 +1564,8 @@ class Parameter(_ParameterBase):
                 # sources (and cancels a pending asynchronous reference)
                 relink = partial(self.owner.param._update_ref, name, Undefined)
             if is_async or val is Undefined:
-                if relink is not None:
+                # (the link of an async reference is installed by _resolve_ref)
+                if relink is not None and not is_async:
                     relink()
                 return
 
@@ -2193,7 +2194,7 @@ class Parameters:
             if new_val is Skip or new_val is Undefined:
                 continue
             elif is_async:
-                async_executor(partial(self_._async_ref, pname, new_val))
+                async_executor(partial(self_._async_ref, pname, new_val, ref))
                 continue
 
             updates[pname] = new_val
@@ -2214,22 +2215,30 @@ class Parameters:
         except Skip:
             value = Undefined
         if is_async:
-            async_executor(partial(self_._async_ref, pobj.name, value))
+            if self_.self._param__private.initialized:
+                # Install the link before scheduling, so that the task can
+                # tell whether its reference is still the current one
+                self_._update_ref(pobj.name, ref)
+            async_executor(partial(self_._async_ref, pobj.name, value, ref))
             value = None
         return ref, deps, value, is_async
 
-    async def _async_ref(self_, pname, awaitable):
+    async def _async_ref(self_, pname, awaitable, ref=None):
         if not self_.self._param__private.initialized:
-            async_executor(partial(self_._async_ref, pname, awaitable))
+            async_executor(partial(self_._async_ref, pname, awaitable, ref))
+            return
+        if ref is not None and self_.self._param__private.refs.get(pname) is not ref:
+            # The reference was replaced or overridden before this task started
+            if hasattr(awaitable, 'close'):
+                awaitable.close()
             return
 
         import asyncio
         current_task = asyncio.current_task()
         running_task = self_.self._param__private.async_refs.get(pname)
-        if running_task is None:
-            self_.self._param__private.async_refs[pname] = current_task
-        elif current_task is not running_task:
-            self_.self._param__private.async_refs[pname].cancel()
+        if running_task is not None and running_task is not current_task:
+            running_task.cancel()
+        self_.self._param__private.async_refs[pname] = current_task
         try:
             if isinstance(awaitable, types.AsyncGeneratorType):
                 async for new_obj in awaitable:
